@@ -280,3 +280,37 @@ func RandomGroupFormula(r *Rng, negOK bool) *ref.F {
 	}
 	return f
 }
+
+// RenameAdversarial renames the variables of f (in place) to names that look like the ones the translation to CNF
+// generates for its own auxiliary variables ("dummy-3", "line-0-...", "col-1-..."): a user may use any name.
+func RenameAdversarial(r *Rng, f *ref.F) {
+	pool := []string{"dummy-1", "dummy-2", "dummy-3", "dummy-4", "dummy-5", "dummy-6", "line-0-v1", "col-0-v1", "line-1-dummy-1", "dummy", "c", "p cnf"}
+	perm := r.Perm(len(pool))
+	mapping := map[string]string{}
+	next := 0
+	var rec func(f *ref.F)
+	get := func(n string) string {
+		if m, ok := mapping[n]; ok {
+			return m
+		}
+		m := n
+		if next < len(pool) && r.Chance(2, 3) {
+			m = pool[perm[next]]
+			next++
+		}
+		mapping[n] = m
+		return m
+	}
+	rec = func(f *ref.F) {
+		if f.Op == "var" {
+			f.Name = get(f.Name)
+		}
+		for i, n := range f.Names {
+			f.Names[i] = get(n)
+		}
+		for _, k := range f.Kids {
+			rec(k)
+		}
+	}
+	rec(f)
+}
